@@ -47,6 +47,9 @@ class Geometry:
         self.ksat = np.array(prof.Ksat, dtype=float, copy=True)
         self.zbot = np.cumsum(self.dz)
         self.zmid = self.zbot - self.dz / 2
+        # air dry is DEFINED as half the wilting point (AquaCrop): the bound is derived from the wilting point, not read from the
+        # column the model stores
+        self.th_dry = self.th_wp / 2.0
         # hydraulic limits of a custom soil come from the CONFIGURATION (reference layer map), not from the profile the model built
         self.limits_from_spec = False
         if spec is not None:
